@@ -299,16 +299,18 @@ def stepLine (st : St) (toks : List String) : St × String :=
   | "ans" :: k :: a =>
     match k.toNat?, parseAns a with
     | some k, some a =>
-      match sinkOf st k, popHeld k st.held with
-      | some (w, r), some (_, held') =>
+      -- the owner of the reader sink k listens on answers the oldest request in the reader's queue
+      -- (`Sys.queue`: with fan-in the requests of several writers, interleaved)
+      match st.sys.queue k with
+      | _ :: _ =>
         let before := pushedLens st
-        let p := step st.rule st.topo st.sys (.prim w (.w (.answer r a)))
+        let p := step st.rule st.topo st.sys (.sinkAnswer k a)
         let ret := match p.2 with
           | .c (.w o) => (match o.ret with | .ok true => "t" | .ok false => "f" | _ => "?")
           | _ => "?"
-        let (st2, _) := relayAll { st with sys := p.1, held := held' } 64
+        let (st2, _) := relayAll { st with sys := p.1 } 64
         (st2, ret ++ newPushed st2 before)
-      | _, _ => (st, "none")
+      | [] => (st, "none")
     | _, _ => (st, "bad-op")
   | ["pwrite", w, v] =>
     -- a write after the crash point: same step, only the count is compared
@@ -330,15 +332,15 @@ def stepLine (st : St) (toks : List String) : St × String :=
     -- an answer after the crash point: only the return value is compared
     match k.toNat?, parseAns a with
     | some k, some a =>
-      match sinkOf st k, popHeld k st.held with
-      | some (w, r), some (_, held') =>
-        let p := step st.rule st.topo st.sys (.prim w (.w (.answer r a)))
+      match st.sys.queue k with
+      | _ :: _ =>
+        let p := step st.rule st.topo st.sys (.sinkAnswer k a)
         let ret := match p.2 with
           | .c (.w o) => (match o.ret with | .ok true => "t" | .ok false => "f" | _ => "?")
           | _ => "?"
-        let (st2, _) := relayAll { st with sys := p.1, held := held' } 64
+        let (st2, _) := relayAll { st with sys := p.1 } 64
         (st2, ret)
-      | _, _ => (st, "none")
+      | [] => (st, "none")
     | _, _ => (st, "bad-op")
   | ["recv", w] =>
     match w.toNat? with
